@@ -1022,6 +1022,15 @@ def split(a, idx, axis=0):
     return [ndarray(p, a._tag) for p in _np.split(a._a, idx, axis=axis)]
 
 
+def resize(a, new_shape):
+    a = _as_nd(a)
+    if isinstance(new_shape, (tuple, list)):
+        new_shape = tuple(operator.index(x) for x in new_shape)
+    else:
+        new_shape = operator.index(new_shape)
+    return ndarray(_np.resize(a._a, new_shape), a._tag)
+
+
 def roll(a, shift, axis=None):
     a = _as_nd(a)
     return ndarray(_np.roll(a._a, operator.index(shift), axis=axis), a._tag)
